@@ -137,8 +137,16 @@ func (k Keeper) AllocateTokensToStakers(ctx sdk.Context, operatorAddress sdk.Acc
 				if curStakerPower, err := k.StakingKeeper.CalculateUSDValueForStaker(ctx, staker, avsAddress, operatorAddress.Bytes()); err != nil {
 					logger.Error("curStakerPower error", "error", err)
 				} else {
-					stakersPowerMap[staker] = curStakerPower
-					globalStakerAddressList = append(globalStakerAddressList, staker)
+					// a staker is found once per AVS and asset of the operator: list it once and
+					// add up its powers, so that the fractions handed out below sum to one
+					// (listing it several times with the last power paid out more than the
+					// reward and made the remainder negative, which panics).
+					if prev, seen := stakersPowerMap[staker]; seen {
+						stakersPowerMap[staker] = prev.Add(curStakerPower)
+					} else {
+						stakersPowerMap[staker] = curStakerPower
+						globalStakerAddressList = append(globalStakerAddressList, staker)
+					}
 					curTotalStakersPowers = curTotalStakersPowers.Add(curStakerPower)
 				}
 			}
